@@ -270,6 +270,7 @@ def run(run):
                 # templates that END inside an operator construct (204 not cancelled, 221 not used up, a bitmap still being
                 # counted): what wiring keeps from one subset must not reach the next
                 ('open', cat['open'], dict(subset_counts=(2,), fmax=1 if not thorough else 2, seeds=((r + 2) % 5,), compressions=(False,))),
+                ('dnp', cat['dnp'], dict(subset_counts=(1, 2), fmax=2, seeds=((r + 3) % 5,))),
                 ('rnd_plain', cat['rnd_plain'], dict(subset_counts=(1,), seeds=((r + 4) % 5,), compressions=(r % 2 == 1,))),
                 ('rnd_struct', cat['rnd_struct'], dict(subset_counts=(2,) if thorough else (1,), fmax=2, seeds=(r,))),
                 ('rnd_bitmap', cat['rnd_bitmap'], dict(subset_counts=(2,), fmax=2, seeds=((r + 1) % 5,), compressions=(False, True) if thorough else (False,)))]
